@@ -332,6 +332,23 @@ pub fn d_case(c: &Case, rep: &mut Reporter) {
     let abs = hash_of(&(n, &c.decs, mag(c.amp as u128), mag(c.res[0]), (sk as u64).min(1000) / 50));
     if !err.is_negative() && err <= bi(2) || (err.is_negative() && err >= BigInt::from(-2)) {
         rep.held("d_accuracy", abs, || json!({"case": ctx(), "D_mint_path": d_impl.to_string(), "floor_exact_D": d_exact.to_string()}));
+        // the deposit that opens a pool is minted at the invariant of what it brings: the same
+        // balance set as a first deposit must give that D (where it fits 128 bits)
+        let zeros: Vec<Coin> = info.assets.iter().map(|c| coin(0, c.denom.clone())).collect();
+        let mut empty = info.clone();
+        empty.assets = zeros.clone();
+        let first = catch_unwind(AssertUnwindSafe(|| pool_manager::helpers::compute_lp_mint_amount_for_stableswap_deposit(&amp, &zeros, &info.assets, Uint128::zero(), &empty)));
+        if let Ok(Ok(Some(m))) = first {
+            // (the function returns D less the minimum liquidity that stays locked: 1000 units
+            // scaled by a power of ten to the pool's precision)
+            let e1 = bi(m.u128()) - &d_exact;
+            let locked_ok = (0..=33u32).any(|k| (&e1 + bi(1000) * pow10(k)).abs() <= bi(2));
+            if locked_ok || e1.clone().abs() <= bi(2) {
+                rep.held("d_accuracy", hash_of(&("first_deposit", n, &c.decs, mag(c.res[0]))), || json!({"case": ctx(), "first_deposit_mint": m.to_string(), "floor_exact_D": d_exact.to_string()}));
+            } else {
+                rep.failed("d_accuracy", None, format!("the opening deposit of this balance set is minted at {m}, {e1} units off the exact root {d_exact} (the invariant computed for the same balances is within two units)"), witness(json!({"case": ctx(), "first_deposit_mint": m.to_string(), "floor_exact_D": d_exact.to_string()})));
+            }
+        }
     } else {
         let cap = 2.0 + (n as f64) * sk / 8.0;
         let e = err.to_f64().unwrap_or(f64::INFINITY);
